@@ -70,8 +70,14 @@ pub fn canon(n: &SyntaxNode, parent: Option<K>, sort_imports: bool) -> Option<C>
     }
     let mut kids: Vec<C> = vec![];
     let in_math_args = k == K::Args && n.children().any(|c| c.kind() == K::Math || c.kind() == K::Semicolon);
-    for c in n.children() {
+    let raw: Vec<&SyntaxNode> = n.children().collect();
+    for (ci, c) in raw.iter().enumerate() {
+        let c = *c;
         if k == K::Args && c.kind() == K::Comma && !in_math_args {
+            continue;
+        }
+        // the terminator of a hashed expression (`#x;`) is an optional separator
+        if c.kind() == K::Semicolon && ci >= 2 && raw[ci - 2].kind() == K::Hash && raw[ci - 1].is::<ast::Expr>() {
             continue;
         }
         if let Some(x) = canon(c, Some(k), sort_imports) {
@@ -528,8 +534,14 @@ fn ser_math(n: &SyntaxNode, out: &mut String) {
         K::MathAttach | K::MathFrac | K::MathRoot | K::MathPrimes => {
             // white space directly around `_ ^ / √` is exempt
             out.push_str("A[");
+            let mut after_hash = false;
             for c in n.children() {
-                if c.kind() != K::Space {
+                if c.kind() == K::Space {
+                } else if after_hash {
+                    out.push_str("code");
+                    after_hash = false;
+                } else {
+                    after_hash = c.kind() == K::Hash;
                     ser_math(c, out);
                 }
             }
@@ -538,8 +550,14 @@ fn ser_math(n: &SyntaxNode, out: &mut String) {
         K::FuncCall | K::Args | K::Named | K::Spread | K::FieldAccess => {
             // a math function call: padding inside the parentheses and around separators is exempt
             out.push_str("F[");
+            let mut after_hash = false;
             for c in n.children() {
-                if c.kind() != K::Space {
+                if c.kind() == K::Space {
+                } else if after_hash {
+                    out.push_str("code");
+                    after_hash = false;
+                } else {
+                    after_hash = c.kind() == K::Hash;
                     ser_math(c, out);
                 }
             }
